@@ -88,11 +88,17 @@ def build_input(rng, idx):
         names.append(nm)
         kinds.append("class" if is_class else "function")
         expect[nm] = [p["name"] for p in f.params]
-    lines.append("input_map = {" + ", ".join("'{0}': {0}".format(n) for n in names) + "}")
+    # registry style: some keys are aliases that differ from the object's own __name__
+    alias = rng.random() < 0.5
+    keys = [("alias_" + n.lower()) if (alias and rng.random() < 0.6) else n for n in names]
+    lines.append("input_map = {" + ", ".join("'{0}': {1}".format(k, n) for k, n in zip(keys, names)) + "}")
+    expect = {k: expect[n] for k, n in zip(keys, names)}
+    obj_kind = {k: ("class" if n.startswith("Klass") else "function") for k, n in zip(keys, names)}
+    names = keys
     lines.append("")
     feats = {"n_entries": n, "n_import_lines": n_imp, "annotated": annotated, "entry_kinds": sorted(set(kinds)),
              "has_function_entry": "function" in kinds, "has_class_entry": "class" in kinds,
-             "any_params": any(expect.values())}
+             "any_params": any(expect.values()), "aliased_keys": alias, "obj_kind": obj_kind}
     return "\n".join(lines), names, feats, expect
 
 
@@ -118,7 +124,8 @@ def one(ctx, i, tmpdir):
         prepend = "import math\n" + prepend
     out_fn = os.path.join(tmpdir, "out_{}.py".format(i))
     via = "cli" if i % 8 == 5 else "api"
-    base = dict(op=OP, type=type_, name_tpl=tpl, prepend=prepend is not None, imports_from_file=imports_from_file is not None, via=via, **feats)
+    base = dict(op=OP, type=type_, name_tpl=tpl, prepend=prepend is not None, imports_from_file=imports_from_file is not None, via=via,
+                **{k: v for k, v in feats.items() if k != "obj_kind"})
     replay = {"input": src, "type": type_, "name_tpl": tpl, "prepend": prepend, "imports_from_file": bool(imports_from_file)}
     ctx.case((type_, tpl, prepend is not None, imports_from_file is not None, feats["n_entries"], feats["n_import_lines"], feats["annotated"],
               tuple(feats["entry_kinds"]), i), nontrivial=feats["any_params"],
@@ -221,7 +228,7 @@ def one(ctx, i, tmpdir):
             have = [a.arg for a in d.args.args + d.args.kwonlyargs] + ([d.args.kwarg.arg] if d.args.kwarg else [])
         have = [h for h in have if h not in ("return_type", "self", "cls")]
         ctx.event("interfaces_compared")
-        ek = "class" if n.startswith("Klass") else "function"
+        ek = feats["obj_kind"][n]
         if sorted(have) != sorted(expect[n]):
             missing = sorted(set(expect[n]) - set(have))
             extra = sorted(set(have) - set(expect[n]))
